@@ -387,6 +387,8 @@ def main_check(pid: str, tier: str) -> int:
         out(f"  bucket={v.get('bucket')} detail={str(v.get('detail'))[:600]}")
 
     floor = int(plan.get("min_nontrivial", 2))
+    if budget_reached:
+        floor = 2  # a time budget hit is "inconclusive", never an error: only the evidence schema's minimum applies
     wall = time.time() - t0
     cov = dict(
         evaluations=int(evaluations + n_reg),
